@@ -39,6 +39,132 @@ def run(ctx, rep):
     c14.ctor_rules(f, rep, 'C09.3')
     geometry_rule(f, rep)
     compressed_read_rule(f, rep)
+    classification_rule(f, rep, 'C09.6')
+
+
+def flag_bits(f, ev, pred):
+    """the single-bit values of Qcow2Info.flags for which the predicate method is true (from the code itself)"""
+    from ..bitsem import C as BC, Undecided
+    info0 = c15.info_value(f, 16, 4, 12, 12)
+    names = [x['n'] for x in f.adts['dev::info::Qcow2Info']['variants'][0]['fields']]
+    fi = names.index('flags')
+    w = info0.xs[fi].w
+    out = []
+    for k in range(w):
+        info0.xs[fi] = BC(w, 1 << k)
+        ev.steps = 0
+        try:
+            r = ev.call('dev::info::Qcow2Info::' + pred, [info0])
+        except Undecided as e:
+            raise AnalysisError('Qcow2Info::%s is not decided by the bit evaluator: %s' % (pred, e))
+        if not isinstance(r, BC):
+            raise AnalysisError('Qcow2Info::%s does not evaluate to a constant on a constant flag word' % pred)
+        if r.v:
+            out.append(k)
+    return out, fi, w
+
+
+def classification_rule(f, rep, rid):
+    """L2Entry::into_mapping agrees with the cluster-descriptor table of the specification on every
+    partition of a standard / compressed descriptor (flag bits concrete, the 47 offset bits symbolic)."""
+    from ..bitsem import Evaluator, Undecided, C as BC, S as BS, T as BT, Adt
+    rep.rule(rid, 'L2Entry::into_mapping classifies every spec-valid L2 entry as the specification says: bit 62 -> Compressed; '
+                  'else bit 0 -> Zero (host offset kept iff non-zero); else offset 0 -> Unallocated / Backing; else DataFile with '
+                  'the offset bits 9..55 unchanged and copied = bit 63')
+    ev = Evaluator(f)
+    INTO = 'meta::l2::L2Entry::into_mapping'
+    if f.body(INTO) is None:
+        raise AnalysisError('L2Entry::into_mapping not found')
+    fl = [x['n'] for x in f.adts['meta::l2::Mapping']['variants'][0]['fields']]
+    need = ('source', 'cluster_offset', 'copied')
+    if any(n not in fl for n in need):
+        raise AnalysisError('Mapping layout changed: %s' % fl)
+    isrc, ioff, icop = fl.index('source'), fl.index('cluster_offset'), fl.index('copied')
+    hb, fi, w = flag_bits(f, ev, 'has_back_file')
+    if len(hb) != 1:
+        raise AnalysisError('has_back_file is true for %d single flag bits' % len(hb))
+    n = 0
+    bad = {}
+    und = {}
+    for cb in (9, 12, 16, 21):
+        for backing in (False, True):
+            info = c15.info_value(f, cb, 4, min(12, cb), min(12, cb))
+            info.xs[fi] = BC(w, (1 << hb[0]) if backing else 0)
+            guest = Adt('meta::addr::SplitGuestOffset', 0, [BC(64, 5 << cb)])
+            for comp in (0, 1):
+                for zero in (0, 1):
+                    for copied in (0, 1):
+                        for nz in (None, cb, 30, 55):
+                            if comp and nz is None:
+                                continue
+                            if not comp and not zero and nz is None and copied:
+                                continue        # COPIED with offset 0: not a valid descriptor
+                            bits = ['0'] * 64
+                            bits[0] = str(zero)
+                            bits[62] = str(comp)
+                            bits[63] = str(copied)
+                            if comp:
+                                for i in range(0, 62):
+                                    bits[i] = 'e%d' % i
+                                bits[nz] = '1'
+                            elif nz is not None:
+                                for i in range(cb, 56):
+                                    bits[i] = 'e%d' % i
+                                bits[nz] = '1'
+                            entry = Adt('meta::l2::L2Entry', 0, [BS(bits)])
+                            part = 'cluster_bits %d backing %s: compressed=%d zero=%d copied=%d offset %s' % (
+                                cb, backing, comp, zero, copied, 'zero' if nz is None else 'non-zero (bit %d set)' % nz)
+                            if comp:
+                                want = ('Compressed', None, None)
+                            elif zero:
+                                want = ('Zero', 'keep' if nz is not None else 'none', None)
+                            elif nz is None:
+                                want = ('Backing' if backing else 'Unallocated', None, None)
+                            else:
+                                want = ('DataFile', 'keep', copied)
+                            ev.steps = 0
+                            n += 1
+                            try:
+                                r = ev.call(INTO, [entry, info, guest])
+                            except Undecided as e:
+                                und[part] = str(e)
+                                continue
+                            if not isinstance(r, Adt) or len(r.xs) != len(fl) or not isinstance(r.xs[isrc], Adt):
+                                und[part] = 'result %r' % (r,)
+                                continue
+                            got = r.xs[isrc].vname
+                            msg = None
+                            if got != want[0]:
+                                msg = 'classified as %s, the specification says %s' % (got, want[0])
+                            elif want[1] is not None:
+                                o = r.xs[ioff]
+                                if want[1] == 'none':
+                                    if not (isinstance(o, Adt) and o.vname == 'None'):
+                                        msg = 'host offset of a zero cluster without preallocation is %r, not None' % (o,)
+                                else:
+                                    exp = ['0'] * 64
+                                    for i in range(cb, 56):
+                                        exp[i] = bits[i]
+                                    pay = o.xs[0] if isinstance(o, Adt) and o.vname == 'Some' and o.xs else None
+                                    from ..bitsem import to_bits
+                                    pb = to_bits(pay, 64) if isinstance(pay, (BC, BS)) else None
+                                    if pb is None or list(pb) != exp:
+                                        msg = 'host offset is %r, not bits %d..55 of the entry' % (o, cb)
+                            if msg is None and want[2] is not None:
+                                c = r.xs[icop]
+                                if not (isinstance(c, BC) and c.v == want[2]):
+                                    msg = 'copied is %r, the entry has bit 63 = %d' % (c, want[2])
+                            rep.ob(rid, part, msg is None, msg or '')
+                            if msg:
+                                bad.setdefault(msg.split(',')[0] + ' [%s]' % part.split(': ')[1], part)
+    rep.floor('descriptor partitions evaluated through into_mapping', n - len(und), 150)
+    if und:
+        k = sorted(und)[0]
+        raise AnalysisError('into_mapping not decided on %d partition(s), e.g. %s: %s' % (len(und), k, und[k]))
+    b = f.body(INTO)
+    for msg, part in sorted(bad.items())[:6]:
+        rep.violation(rid, '%s:into_mapping:%s' % (rid, msg.split(' [')[1].rstrip(']').replace(' ', '_')), b.where(0),
+                      'L2Entry::into_mapping, %s: %s' % (part, msg.split(' [')[0]))
 
 
 def v2_rule(f, rep):
